@@ -343,7 +343,7 @@ def run_job(job, prop_id, workroot, tier, deadline=None):
     bflags = {"sat": [], "z3": ["--z3"], "cvc5": ["--cvc5"],
               "cadical": ["--sat-solver", "cadical"],
               "kissat": ["--external-sat-solver", "kissat"]}[backend]
-    cmd = ["cbmc", cur] + checks + job.get("cbmc", []) + bflags + ["--trace", "--json-ui"]
+    cmd = ["cbmc", cur] + checks + job.get("cbmc", []) + bflags + (["--trace"] if job.get("trace", True) else []) + ["--json-ui"]
     if "--object-bits" not in " ".join(cmd):
         pass
     res.cmds.append(" ".join(cmd))
